@@ -118,6 +118,23 @@ def split_cases(out_lines):
 # ---------------------------------------------------------------------------------------------
 # parallel map with per-case timeout protection
 # ---------------------------------------------------------------------------------------------
+def peek_map(mm, seed_tuple, p=0.3):
+    """usage variation (own random stream): the caller looks at a memory map the way interactive code does —
+    the first item or two of a listing, then stops — before going on to use the map. A query, complete or not,
+    changes nothing."""
+    r = random.Random(hash(tuple(seed_tuple)) & 0xffffffff)
+    if r.random() >= p:
+        return False
+    for q in r.sample(["resources", "windows", "all_resources", "window_patterns"], r.randint(1, 3)):
+        try:
+            it = iter(getattr(mm, q)())
+            for _ in range(r.randint(1, 2)):
+                next(it, None)
+        except AssertionError:
+            pass
+    return True
+
+
 def bits(rnd, w):
     """`w` random bits, biased towards the values a uniform draw never hits when `w` is large: about a
     third of the draws are 0, all ones, 1, only the top bit, or an alternating pattern. Consumes the
